@@ -82,10 +82,10 @@ class C08(scen.WorldProp):
             # the humans ring whatever is not Wheatley's *now* (they see the assignments too)
             class Band(scen.Follower):
                 def tick(self2, s2, t):
-                    bot = getattr(s2, "bot", None)
-                    if bot is not None:
+                    tw = getattr(s2, "tower", None)
+                    if tw is not None:
                         self2.bells = {b for b in range(1, s2.size + 1)
-                                       if not bot._tower.is_bell_assigned_to(__import__("wheatley.bell", fromlist=["Bell"]).Bell.from_number(b), name)}
+                                       if not tw.is_bell_assigned_to(__import__("wheatley.bell", fromlist=["Bell"]).Bell.from_number(b), name)}
                     super().tick(s2, t)
             return [Band(s, humans, lambda r, p: lag)]
         return make
